@@ -2,9 +2,11 @@
 from facts import walk, callee_of, call_args, loc
 import hirq, anchors, absx, sem, driver
 
-EXPLANATION = ("R1 path-sensitive extraction of the envelope decoder: on every success path the returned id is parse_uint of the "
-               "universal INTEGER primitive child adjacent to the protocolOp child - narrowed to the 32-bit RequestId only after a range "
-               "test or by a checked conversion -, controls come from the trailing [0] constructed child; R2 on the enumerated paths of the driver's response arm every routing-map access and ID release is keyed by the ID decoded from that "
+EXPLANATION = ("R1 the envelope decoder interpreted exactly on element trees (rules/envelope.py: the TLV parser's answer fixed to one tree at a time - a well-formed LDAPMessage "
+               "without / with an empty / with one / two / any controls, any protocolOp, and its single-field mutations): a well-formed envelope is delivered under exactly the number its first "
+               "child denotes as an INTEGER within 0 .. maxInt (for any content: the unsigned reader's value of all of its octets, narrowed to the 32-bit RequestId only after a range "
+               "test or by a checked conversion), with its second child as the operation and what parse_controls makes of its trailing [0] constructed child; anything else reaches nobody; "
+               "on every success path of the decoder the message is (id, (Tag::StructureTag(op), controls)); R2 on the enumerated paths of the driver's response arm every routing-map access and ID release is keyed by the ID decoded from that "
                "very response; R3 every reply send in that arm (a delivery call by role: a call on a reply / item sender that is handed a message of the channel's type) goes to the sender obtained by that lookup and carries only data of the "
                "same decoded message; R4 the protocolOp classification table equals RFC 4511 (4,25 -> Entry; 19 -> Referral; 5 -> Done, "
                "only Done ends the search); R5 on every path of the response arm a reply send, a registration or an ID release comes after a lookup of the decoded ID that found an operation (a message nobody waits for reaches nobody and changes nothing); R6 registration keys/values "
@@ -44,9 +46,13 @@ def run(ctx):
     # ------------------------------------------------------------------ R1 id extraction
     decs = decoder_bodies(f)
     ctx.add('R1.decoder', 'frame decoder bodies', '', len(decs) == 1, 'expected one envelope decoder, found %s' % decs)
+    import envelope
     for dp in decs:
         ctx.analysed['bodies'].add(dp)
         B = hirq.Body(f, f.hir[dp])
+        # R1.envelope-path, for every input at once (the decoder interpreted with the parser's answer left symbolic): whatever the
+        # decoder delivers is a triple (ID, (Tag::StructureTag(operation), controls)) - the driver's response arm takes it apart as
+        # such, and its arm for any other Tag variant panics (reviewed as infeasible in C11's cone on this ground)
         outs = absx.Interp(f, B, combinators=True).run()
         succ = []
         for o in outs:
@@ -58,33 +64,22 @@ def run(ctx):
         for o, msg in succ:
             ok, why = check_envelope_path(o, msg)
             ctx.add('R1.envelope-path', dp + '|' + path_sig(o), loc(B.root), ok, why)
-
-    # R1.message-id-exact: how the content octets of the messageID element become the RequestId is decided by literal evaluation of
-    # the decoder itself (whatever reads them: parse_uint, a helper, a loop): with the primitive content of the INTEGER element fixed
-    # to a literal octet string, every path that delivers a message delivers it under exactly the number those octets denote as a
-    # two's-complement INTEGER, and that number is a MessageID (0 .. maxInt); anything else is rejected.  The minimal encodings of
-    # valid IDs are accepted.  (An ID read modulo 2^64 or 2^32, or a negative one read unsigned, is delivered to the operation
-    # whose ID the truncated number happens to be.)
-    for dp in decs:
-        B = hirq.Body(f, f.hir[dp])
-        wrong, n_eval = [], 0
-        for octets in id_vectors():
-            v = int.from_bytes(octets, 'big', signed=True) if octets else None
-            valid = v is not None and 0 <= v <= 2**31 - 1
-            minimal = valid and octets == v.to_bytes(max(1, (v.bit_length() + 8) // 8), 'big', signed=True)
-            delivered = []
-            for o in eval_decoder_with_id_content(f, B, octets):
-                n_eval += 1
-                w = o.val
-                if o.kind in ('val', 'ret') and w[0] == 'ctor' and w[1] == 'Ok' and w[2] and w[2][0][0] == 'ctor' and w[2][0][1] == 'Some':
-                    msg = w[2][0][2][0]
-                    delivered.append(msg[1][0] if msg[0] == 'tuple' and msg[1] else ('unk', 'shape'))
-            bad = [d for d in delivered if not (valid and d == ('lit', v))]
-            if bad or (minimal and not delivered):
-                wrong.append((octets.hex() or '(empty)', sorted({absx.fmt(d)[:30] for d in delivered}) or 'rejected', v if valid else 'not a MessageID'))
-        ctx.add('R1.message-id-exact', dp, loc(B.root), not wrong and n_eval > 0,
-                'the messageID is not read exactly: with the content octets of the INTEGER element fixed to literal strings, %d of %d strings are delivered under a number '
-                'that is not the MessageID they denote, or a valid minimal encoding is rejected; (octets, delivered as, denotes): %s' % (len(wrong), len(id_vectors()), wrong[:5]))
+        # Which child of the envelope becomes the ID, which the operation and which the controls, what is and what is not an
+        # envelope, and how the content octets of the messageID element become the RequestId are decided by exact interpretation of
+        # the decoder on element trees (rules/envelope.py): the parser's answer fixed to one tree at a time - a well-formed
+        # LDAPMessage and its single-field mutations, with generic leaves where the decoder must not care (any protocolOp, any
+        # control list, any ID content).  A tree is delivered under exactly the number its first child denotes as a
+        # two's-complement INTEGER within 0 .. maxInt, with its second child as the operation; anything else is delivered to nobody.
+        #   R1.envelope-tree          the shapes: (id, op), (id, op, controls) for no / one / two controls / any control list, any operation
+        #   R1.message-id-exact       the ID's content octets: 0, 1, 127 | 128 ..; the sign octet; 2^31 - 1 | 2^31; wider than the
+        #                             reader's 64 bits; none at all (an ID read modulo 2^64 or 2^32, or a negative one read unsigned, is
+        #                             delivered to the operation whose ID the truncated number happens to be); and, for any content, the
+        #                             number is the unsigned reader's value of all of it, narrowed only under a range test
+        #   R1.malformed-envelope-reaches-nobody   the mutations (an element in front of the ID, a second INTEGER, ID and operation
+        #                             swapped, a primitive / second / misplaced controls element, ...): no operation is handed a message
+        #                             whose ID is not where RFC 4511 puts it
+        envelope.check(ctx, f, dp, {'good': 'R1.envelope-tree', 'tolerated': 'R1.envelope-tree', 'bad': 'R1.malformed-envelope-reaches-nobody', 'id': 'R1.message-id-exact',
+                                    'generic-id': 'R1.message-id-exact'})
 
     # ------------------------------------------------------------------ response arm
     resp = C.arms['response']
@@ -424,103 +419,11 @@ def path_sig(o):
             parts.append(('' if t else '!') + a[2])
     return ','.join(parts) or 'plain'
 
-def id_vectors():
-    vecs = [b'', b'\x00', b'\x01', b'\x7f', b'\x80', b'\xff', b'\x00\x80', b'\x00\xff', b'\x01\x00', b'\x7f\xff', b'\x80\x00', b'\xff\xff',
-            b'\x00\x80\x00', b'\x01\x00\x00', b'\x7f\xff\xff\xff', b'\x00\x80\x00\x00\x00', b'\x80\x00\x00\x00', b'\x00\xff\xff\xff\xff', b'\x01\x00\x00\x00\x01',
-            b'\x00\x00\x00\x01', b'\x00\x00\x00\x00\x00\x00\x00\x02', b'\x01\x00\x00\x00\x00\x00\x00\x02', b'\xff\xff\xff\xff\xff\xff\xff\xff',
-            b'\x01\x00\x00\x00\x00\x00\x00\x00\x02', b'\x00\x00\x00\x00\x00\x00\x00\x00\x02', b'\x01' + b'\x00' * 11 + b'\x03', b'\x7f' + b'\xff' * 7, b'\x80' + b'\x00' * 7]
-    return sorted(set(vecs), key=lambda x: (len(x), x))
-
-def eval_decoder_with_id_content(f, B, octets):
-    """the decoder's paths with the primitive content of the element that had to be a universal INTEGER fixed to a literal"""
-    def is_id_element(t):
-        return sem.has(t, lambda x: x[0] == 'call' and x[1].endswith('::match_id') and len(x[2]) == 2 and x[2][1] in (('lit', 2), ('cast', ('ctor', 'Types::Integer', ()), 'u64')))
-    def content(I, cal, args, node, st):
-        if cal.endswith('::expect_primitive') and len(args) == 1 and is_id_element(args[0]):
-            return [absx.Out('val', ('ctor', 'Some', (('lit', octets),)), st)]
-        return None
-    return absx.Interp(f, B, summaries=[content], unroll=16, inline=lambda c: c == 'lber::parse::parse_uint', combinators=True).run()
-
-def bounded_above(pc, x, limit):
-    """the path condition holds a comparison of x with a literal that implies x <= limit"""
-    for a, t in pc:
-        if a[0] != 'bin' or a[2] != x or a[3][0] != 'lit' or not isinstance(a[3][1], int):
-            continue
-        n = a[3][1]
-        if (a[1] == 'Le' and t and n <= limit) or (a[1] == 'Lt' and t and n <= limit + 1) or (a[1] == 'Gt' and not t and n <= limit) or (a[1] == 'Ge' and not t and n <= limit + 1):
-            return True
-    return False
-
 def check_envelope_path(o, msg):
     """msg = (ID, (Tag::StructureTag(OP), CTRLS)) as terms."""
-    if msg[0] != 'tuple' or len(msg[1]) != 2 or msg[1][1][0] != 'tuple':
+    if msg[0] != 'tuple' or len(msg[1]) != 2 or msg[1][1][0] != 'tuple' or len(msg[1][1][1]) != 2:
         return False, 'decoded message is not (id, (op, controls))'
-    idt, (optag, ctrls) = msg[1][0], msg[1][1][1]
+    optag = msg[1][1][1][0]
     if not (optag[0] == 'ctor' and optag[1] == 'Tag::StructureTag' and len(optag[2]) == 1):
-        return False, 'protocolOp is not wrapped as Tag::StructureTag'
-    op = optag[2][0]
-    nth = lambda t: absx.leaves(t, lambda x: x[0] == 'nth')
-    opn = nth(op)
-    if len(opn) != 1 or op != ('variant', opn[0], 'Some', 0):
-        return False, 'protocolOp is not a child of the envelope taken as-is: %s' % absx.fmt(op)
-    base, direction, k = opn[0][1], opn[0][2], opn[0][3]
-    idn = set(nth(idt)) - set(nth(base))
-    idn = {x for x in idn if x[1] == base}
-    want = k + 1 if direction == 'pop' else k - 1
-    if {x[3] for x in idn} != {want}:
-        return False, 'message ID is read from child ordinal(s) %s, expected the child adjacent to the protocolOp (%d)' % (sorted(x[3] for x in idn), want)
-    # the ID must be parse_uint applied to the WHOLE content of that child, reached only through the class / tag / primitive checks
-    def unwrap_some(t):
-        return t[1] if (t[0] == 'variant' and t[2] in ('Some', 'Ok') and t[3] == 0) else None
-    t = idt
-    if t[0] == 'cast':
-        # RequestId is i32, the decoded INTEGER an unbounded u64: a narrowing cast delivers a message whose ID is wider than 31 bits
-        # to the operation whose ID its low bits happen to spell.  The path must have bounded the value (MessageID is 0..maxInt), or
-        # convert it with a checked conversion.
-        if t[2] in ('i32', 'ldap3::RequestId') and not bounded_above(o.st.pc, t[1], 2**31 - 1):
-            return False, ('the decoded message ID is narrowed to the 32-bit RequestId by a truncating cast without a range test: a response sent under an ID '
-                           'wider than 31 bits (e.g. 2^32+1) is routed to the operation whose ID its low bits spell (1)')
-        t = t[1]
-    elif t[0] in ('variant', 'call') and sem.has(t, lambda x: x[0] == 'call' and x[1].endswith('::try_from')):
-        inner = absx.leaves(t, lambda x: x[0] == 'call' and x[1].endswith('::try_from'))
-        t = inner[0][2][0] if inner and inner[0][2] else t
-    ok_chain = t[0] == 'field' and t[2] == '1'
-    t = unwrap_some(t[1]) if ok_chain else None
-    ok_chain = t is not None and t[0] == 'call' and t[1].endswith('::parse_uint') and len(t[2]) == 1
-    if not ok_chain:
-        return False, 'message ID is not the value of parse_uint(..): %s' % absx.fmt(idt)[:100]
-    t = unwrap_some(t[2][0])
-    if t is None or not (t[0] == 'call' and t[1].endswith('::expect_primitive')):
-        return False, 'parse_uint is not applied to the whole primitive content of the ID element (something sits between expect_primitive and parse_uint): %s' % absx.fmt(idt)[:140]
-    t = unwrap_some(t[2][0])
-    seen_checks = {}
-    while t is not None and t[0] == 'call' and t[1].rsplit('::', 1)[-1] in ('match_id', 'match_class'):
-        seen_checks[t[1].rsplit('::', 1)[-1]] = t[2][1]
-        t = unwrap_some(t[2][0])
-    if t is None or t[0] != 'nth' or ('variant', t, 'Some', 0) is None:
-        return False, 'the ID element is not taken directly from the envelope children'
-    mid = seen_checks.get('match_id')
-    if not (mid == ('lit', 2) or mid == ('cast', ('ctor', 'Types::Integer', ()), 'u64')):
-        return False, 'message ID element is not required to be INTEGER (universal 2)'
-    if seen_checks.get('match_class') != ('ctor', 'TagClass::Universal', ()):
-        return False, 'message ID element is not required to be of universal class'
-    # controls: from the trailing [0] constructed child, or empty
-    cn = {x for x in nth(ctrls) if x[1] == base}
-    first = ('nth', base, direction, 0)
-    is_ctx0 = any(t and a == ('bin', 'Eq', ('field', ('variant', first, 'Some', 0), 'id'), ('lit', 0)) for a, t in o.st.pc) and \
-        any(t and ((a[0] == 'bin' and a[1] == 'Eq' and a[2] == ('field', ('variant', first, 'Some', 0), 'class') and a[3] == ('ctor', 'TagClass::Context', ())) or
-                   a == ('is', ('field', ('variant', first, 'Some', 0), 'class'), 'TagClass::Context')) for a, t in o.st.pc)      # `class == Context` or a pattern `TagClass::Context`
-    if direction == 'pop':
-        if cn:
-            if {x[3] for x in cn} != {k - 1} or k - 1 != 0:
-                return False, 'controls are read from child ordinal %s, expected the trailing child' % sorted(x[3] for x in cn)
-            if not is_ctx0:
-                return False, 'controls are taken from a trailing child that was not tested to be [0] context'
-            if not any(t and a == ('is', ('field', ('variant', first, 'Some', 0), 'payload'), 'PL::C') for a, t in o.st.pc):
-                return False, 'controls are taken from a trailing [0] child that was not tested to be constructed (the control-list decoder unwraps it as constructed: a primitive [0] panics the driver)'
-            if not any(c2[1].endswith('parse_controls') for c2 in absx.leaves(ctrls, lambda x: x[0] == 'call')):
-                return False, 'controls are not decoded with parse_controls'
-        else:
-            if is_ctx0 and any(t and a[0] == 'is' and a[2] == 'PL::C' for a, t in o.st.pc):
-                return False, 'a trailing [0] constructed child is present but the controls returned are empty'
-    return True, 'id=child %d, op=child %d, controls=%s (%s order)' % (want, k, 'child 0' if cn else 'none', direction)
+        return False, 'protocolOp is not wrapped as Tag::StructureTag: the driver\'s response arm panics on any other Tag variant'
+    return True, 'delivers (id, (Tag::StructureTag(op), controls))'
